@@ -278,7 +278,7 @@ extern MPT_INTERFACE(input) *mpt_stream_input(const MPT_STRUCT(socket) *from, in
 		return 0;
 	}
 	/* bidirectional mode for reply */
-	if (mode & MPT_STREAMFLAG(Write)) {
+	if (mode & (MPT_STREAMFLAG(Write) | MPT_STREAMFLAG(RdWr))) {
 		if (!(mode & MPT_STREAMFLAG(RdWr))) {
 			errno = EINVAL;
 			return 0;
